@@ -27,7 +27,7 @@ func Low(t *rapid.T, label string) uint64 {
 
 var exactCards = []int{1, 2, 4095, 4096, 4097, 4098, 8191, 8192, 65535, 65536}
 
-const NShapes = 13
+const NShapes = 14
 
 // ChunkContent draws the content of one chunk as a normalized interval list
 // inside 0..65535 (never empty) together with the name of the shape used.
@@ -198,6 +198,29 @@ func chunkShape(t *rapid.T, label string, shape int, depth int) ([]model.Iv, str
 			vs = append(vs, v)
 		}
 		s = model.Or(s, model.FromValues(vs))
+	case 13: // isolated values on the chunk's edges (0 and/or 65535, optionally 1 / 65534 apart) around a few runs in the middle
+		name = "edges+runs"
+		switch rapid.IntRange(0, 3).Draw(t, label+".edges") {
+		case 0:
+			s.Add(0)
+		case 1:
+			s.Add(65535)
+		default:
+			s.Add(0)
+			s.Add(65535)
+		}
+		if rapid.IntRange(0, 3).Draw(t, label+".near") == 0 {
+			s.Add(rapid.SampledFrom([]uint64{2, 65533, 63, 64, 65472}).Draw(t, label+".nearv"))
+		}
+		k := rapid.IntRange(0, 3).Draw(t, label+".k")
+		for i := 0; i < k; i++ {
+			a := uint64(rapid.IntRange(2, 65000).Draw(t, label+".a"))
+			l := uint64(rapid.IntRange(1, 3000).Draw(t, label+".l"))
+			if a+l > 65533 {
+				l = 65533 - a
+			}
+			s.AddRange(a, a+l)
+		}
 	}
 	if s.IsEmpty() {
 		s.Add(Low(t, label+".fallback"))
@@ -351,7 +374,7 @@ func BitmapWithKeys(t *rapid.T, label string, keys []uint16, pol KindPolicy) Bit
 // Related draws a second operand derived from the first so that chunk keys
 // align and results cross representation thresholds.
 func Related(t *rapid.T, label string, a BitmapSpec, pol KindPolicy) (BitmapSpec, string) {
-	mode := rapid.IntRange(0, 7).Draw(t, label+".relation")
+	mode := rapid.IntRange(0, 8).Draw(t, label+".relation")
 	if len(a.Chunks) == 0 && mode != 0 {
 		mode = 0
 	}
@@ -440,6 +463,44 @@ func Related(t *rapid.T, label string, a BitmapSpec, pol KindPolicy) (BitmapSpec
 			full.AddRange(uint64(c.Key)<<16+iv.Lo, uint64(c.Key)<<16+iv.Hi)
 		}
 		return fromSet(t, label, full, pol, "threshold"), "threshold"
+	case 8: // same keys, value spans that lie entirely above or below A's span in each chunk; same kind as A's chunk where legal
+		var b BitmapSpec
+		for i, c := range a.Chunks {
+			as := model.FromIntervals(c.Ivs)
+			lo, hi := as.Min(), as.Max()
+			lbl := fmt.Sprintf("%s.d%d", label, i)
+			var ivs []model.Iv
+			above := rapid.Bool().Draw(t, lbl+".above")
+			gap := uint64(rapid.SampledFrom([]int{1, 2, 64, 1000}).Draw(t, lbl+".gap"))
+			switch {
+			case above && hi+gap <= 65535:
+				s0 := hi + gap
+				e0 := s0 + uint64(rapid.IntRange(0, 6000).Draw(t, lbl+".len"))
+				if e0 > 65535 || rapid.IntRange(0, 3).Draw(t, lbl+".toEdge") == 0 {
+					e0 = 65535
+				}
+				ivs = []model.Iv{{Lo: s0, Hi: e0}}
+			case lo >= gap:
+				e0 := lo - gap
+				s0 := uint64(0)
+				if l := uint64(rapid.IntRange(0, 6000).Draw(t, lbl+".len")); l < e0 && rapid.IntRange(0, 3).Draw(t, lbl+".toEdge") != 0 {
+					s0 = e0 - l
+				}
+				ivs = []model.Iv{{Lo: s0, Hi: e0}}
+			default:
+				continue // A's chunk spans the whole range: no room
+			}
+			nc := spec.Chunk{Key: c.Key, Ivs: ivs}
+			nc.Kind = spec.NaturalKind(nc.Card())
+			if c.Kind == spec.Run && (pol == KindsAnyLegal || RunIsMinimal(len(ivs), nc.Card())) {
+				nc.Kind = spec.Run
+			} else {
+				nc = rekind(t, lbl, nc, pol)
+			}
+			b.Chunks = append(b.Chunks, nc)
+			b.Shapes = append(b.Shapes, "disjoint-span")
+		}
+		return b, "disjointspans"
 	default: // interleaved keys
 		keys := map[uint16]bool{}
 		for _, c := range a.Chunks {
